@@ -70,8 +70,10 @@ Local Open Scope Z_scope.
 
 KNOWN_F3 = "memopt-next-obs-of-done-transition"
 
-ARRAY_OBS = ["box1", "box2", "image_hwc", "discrete", "multidiscrete", "multibinary"]
-DICT_OBS = ["dict_mixed", "dict_img"]
+ARRAY_OBS = ["box1", "box2", "image_hwc", "discrete", "multidiscrete", "multibinary", "box_f64", "box_i64"]
+DICT_OBS = ["dict_mixed", "dict_img", "dict_wide"]
+# leaves whose values are NOT representable in float32: float64 = F64_BASE + tag + 0.25, int64 = I64_BASE + tag (exact only in their own dtype)
+F64_BASE, I64_BASE = 1.0e8, 2 ** 40
 ACT_KINDS = ["box", "box64", "discrete", "multidiscrete", "multibinary", "box3d"]
 MAXTAG = 100000
 
@@ -87,6 +89,13 @@ def obs_space(kind):
     if kind == "dict_mixed":
         return spaces.Dict({"vec": spaces.Box(-float(MAXTAG), float(MAXTAG), (2,), dtype=np.float32),
                             "d": spaces.Discrete(MAXTAG), "md": spaces.MultiDiscrete([MAXTAG, MAXTAG, MAXTAG])})
+    if kind == "box_f64":
+        return spaces.Box(-1e12, 1e12, (2,), dtype=np.float64)
+    if kind == "box_i64":
+        return spaces.Box(-2 ** 50, 2 ** 50, (2,), dtype=np.int64)
+    if kind == "dict_wide":
+        return spaces.Dict({"f64": spaces.Box(-1e12, 1e12, (1, 2), dtype=np.float64), "i64": spaces.Box(-2 ** 50, 2 ** 50, (2,), dtype=np.int64),
+                            "u8": spaces.Box(0, 255, (3,), dtype=np.uint8), "d": spaces.Discrete(MAXTAG)})
     if kind == "dict_img":
         return spaces.Dict({"vec": spaces.Box(-float(MAXTAG), float(MAXTAG), (1, 2), dtype=np.float32),
                             "img": spaces.Box(0, 255, (4, 4, 1), dtype=np.uint8)})
@@ -113,10 +122,10 @@ def act_space(kind):
 
 
 def max_obs_tag(kind):
-    return 255 if kind in ("image_hwc", "dict_img") else MAXTAG - 1
+    return 255 if kind in ("image_hwc", "dict_img", "dict_wide") else MAXTAG - 1
 
 
-def enc_batch(space, tags):
+def enc_batch(space, tags, wide=True):
     """VecEnv-style batch (leading axis n_envs) whose every leaf of row e holds tags[e]"""
     import numpy as np
     from gymnasium import spaces
@@ -124,21 +133,72 @@ def enc_batch(space, tags):
     from harness import scripted_envs as se
 
     if isinstance(space, spaces.Dict):
-        return {k: enc_batch(s, tags) for k, s in space.spaces.items()}
+        return {k: enc_batch(s, tags, wide) for k, s in space.spaces.items()}
     if isinstance(space, spaces.Discrete):
         return np.array([int(t) for t in tags], dtype=np.int64)
+    if wide and isinstance(space, spaces.Box) and space.dtype == np.float64:
+        return np.stack([np.full(space.shape, F64_BASE + int(t) + 0.25, dtype=np.float64) for t in tags])
+    if wide and isinstance(space, spaces.Box) and space.dtype == np.int64:
+        return np.stack([np.full(space.shape, I64_BASE + int(t), dtype=np.int64) for t in tags])
     return np.stack([se.encode(space, int(t)) for t in tags])
+
+
+def dec_leaf(space, x):
+    """tag of one sampled leaf, compared EXACTLY in the leaf's own dtype; a value that is not an encoded tag
+    (e.g. one that went through float32) gives the string 'not-a-tag:<value>' instead of a tag"""
+    import numpy as np
+    from gymnasium import spaces
+
+    from harness import scripted_envs as se
+
+    try:
+        if isinstance(space, spaces.Box) and space.dtype in (np.float64, np.int64):
+            arr = np.asarray(x)
+            vals = np.unique(arr)
+            base = F64_BASE + 0.25 if space.dtype == np.float64 else I64_BASE
+            if arr.shape != tuple(space.shape) or len(vals) != 1 or float(vals[0] - base) != int(vals[0] - base) or not 0 <= int(vals[0] - base) < 10 ** 6:
+                return f"not-a-tag:{arr.reshape(-1)[:3].tolist()} shape {arr.shape}"
+            return int(vals[0] - base)
+        return se.decode(space, x)
+    except Exception as e:       # mixed leaves, wrong shapes ...
+        return f"not-a-tag:{type(e).__name__}: {str(e)[:60]}"
 
 
 def dec_obs(space, arr, j):
     """tag of element j of a sampled observation batch (numpy, or dict of numpy)"""
     from gymnasium import spaces
 
-    from harness import scripted_envs as se
-
     if isinstance(space, spaces.Dict):
-        return se.decode(space, {k: arr[k][j] for k in space.spaces})
-    return se.decode(space, arr[j])
+        parts = {k: dec_leaf(sp, arr[k][j]) for k, sp in space.spaces.items()}
+        vals = set(parts.values())
+        return vals.pop() if len(vals) == 1 else f"not-a-tag:mixed leaves {parts}"
+    return dec_leaf(space, arr[j])
+
+
+def dtype_problems(obs_sp, act_sp, s):
+    """the documented dtype rule of a sample: observations keep the dtype of their space (every Dict key its own), actions keep the dtype
+    of the action space except that float64 actions are stored and returned as float32 (GH#1572, by design), rewards and dones are float32"""
+    import numpy as np
+    import torch as th
+    from gymnasium import spaces
+
+    probs = []
+
+    def want(sp):
+        return th.from_numpy(np.zeros(1, dtype=sp.dtype)).dtype
+
+    pairs = []
+    if isinstance(obs_sp, spaces.Dict):
+        for k, sp in obs_sp.spaces.items():
+            pairs += [(f"observations[{k}]", s.observations[k].dtype, want(sp)), (f"next_observations[{k}]", s.next_observations[k].dtype, want(sp))]
+    else:
+        pairs += [("observations", s.observations.dtype, want(obs_sp)), ("next_observations", s.next_observations.dtype, want(obs_sp))]
+    wa = th.float32 if act_sp.dtype == np.float64 else want(act_sp)
+    pairs += [("actions", s.actions.dtype, wa), ("rewards", s.rewards.dtype, th.float32), ("dones", s.dones.dtype, th.float32)]
+    for nm, got, w in pairs:
+        if got != w:
+            probs.append(f"dtype of sampled {nm} is {got}, the space / documented rule gives {w}")
+    return probs
 
 
 def dec_act(space, a):
@@ -146,13 +206,13 @@ def dec_act(space, a):
     from gymnasium import spaces
 
     flat = np.asarray(a).reshape(-1)
+    if flat.size == 0:
+        return "not-a-tag:empty action"
     if isinstance(space, spaces.MultiBinary):
         return int(sum(int(b) << i for i, b in enumerate(flat)))
     vals = np.unique(flat)
     if len(vals) != 1 or float(vals[0]) != int(vals[0]):
-        from harness.scripted_envs import MixedObservation
-
-        raise MixedObservation(f"action cells {flat.tolist()}")
+        return f"not-a-tag:action cells {flat.tolist()[:4]}"
     return int(vals[0])
 
 
@@ -225,7 +285,7 @@ def gen_case(rng, i):
             else:
                 k += 1
     variants = {"done_dtype": rng.choice(["bool", "bool", "float32", "int64"]), "rew_dtype": rng.choice(["float32", "float64"]),
-                "infos_tuple": rng.random() < 0.3, "act_extra_dim": rng.random() < 0.3}
+                "infos_tuple": rng.random() < 0.3, "act_extra_dim": rng.random() < 0.3, "use_defaults": rng.random() < 0.5}
     vecnorm = (obs_kind in ("box1", "box2", "dict_mixed", "dict_img")) and rng.random() < 0.35
     return {"id": i, "buf": buf, "obs_kind": obs_kind, "act_kind": act_kind, "buffer_size": buffer_size, "n_envs": n_envs,
             "memopt": memopt, "hto": hto, "chained": chained, "vecnorm": vecnorm, "variants": variants, "ops": ops}
@@ -320,8 +380,11 @@ def run_impl(case):
     n = case["n_envs"]
     cls = DictReplayBuffer if case["buf"] == "dict" else ReplayBuffer
     try:
-        buf = cls(case["buffer_size"], obs_sp, act_sp, device="cpu", n_envs=n,
-                  optimize_memory_usage=case["memopt"], handle_timeout_termination=case["hto"])
+        if not case["memopt"] and case["hto"] and case.get("variants", {}).get("use_defaults"):
+            buf = cls(case["buffer_size"], obs_sp, act_sp, device="cpu", n_envs=n)      # the documented defaults: no memory optimisation, timeouts handled
+        else:
+            buf = cls(case["buffer_size"], obs_sp, act_sp, device="cpu", n_envs=n,
+                      optimize_memory_usage=case["memopt"], handle_timeout_termination=case["hto"])
     except (ValueError, AssertionError) as e:
         return {"refused": type(e).__name__, "obs": []}
     vn = _make_vecnorm(case, obs_sp, act_sp) if case.get("vecnorm") else None
@@ -343,7 +406,7 @@ def run_impl(case):
                     infos = [({"TimeLimit.truncated": True} if t[5] else ({} if t[6] == 0 else {"TimeLimit.truncated": False})) for t in row]
                     if var.get("infos_tuple"):
                         infos = tuple(infos)
-                    act = enc_batch(act_sp, [t[2] for t in row])
+                    act = enc_batch(act_sp, [t[2] for t in row], wide=False)   # float64 actions are stored as float32 by design: action tags stay float32-exact
                     if var.get("act_extra_dim") and act.ndim == 1:
                         act = act.reshape(-1, 1)          # Discrete actions as (n_envs, 1) instead of (n_envs,)
                     return (enc_batch(obs_sp, [t[0] for t in row]), enc_batch(obs_sp, [t[1] for t in row]), act,
@@ -379,6 +442,7 @@ def run_impl(case):
                     rec["env_range"] = [e_lo, e_hi]
                     if len(ri.calls) != 2:
                         rec["problems"].append(f"sample() made {len(ri.calls)} randint calls, expected 2")
+                    rec["problems"] += dtype_problems(obs_sp, act_sp, s)
                     if len(tup) != len(drawn_idx):
                         rec["problems"].append(f"sample() returned {len(tup)} elements for {len(drawn_idx)} drawn indices")
                     # ---- VecNormalize: normalised sample = normalize_* of the raw one; actions/dones untouched
@@ -525,7 +589,7 @@ def oracle(case, impl):
                     continue   # env column outside what the enumeration could reach (reported by the env-range comparison)
                 o, a, nx, dn, rw = tup
                 where = f"draw {d} env {rec['env_range'][0] + ei}"
-                if a not in log:
+                if isinstance(a, str) or a not in log:
                     probs.append(("oracle-not-an-added-transition", f"{where}: action tag {a} was never added (tuple {tup})"))
                     continue
                 k, e, t = log[a]
@@ -841,7 +905,7 @@ def main():
     n_corpus = len(cases)
     for i in range(n_cases):
         cases.append(gen_case(chk.rng, i))
-    new = 0
+    new, n_oracle, model_only = 0, 0, []
     distinct = set()
     hist = {"array": 0, "dict": 0, "memopt": 0, "hto": 0, "refused": 0, "vecnorm": 0, "chained": 0, "obs_kind": {}, "act_kind": {},
             "capacity": {}, "n_envs": {}, "ops_le_8": 0, "ops_9_30": 0, "ops_gt_30": 0, "observation_points": 0, "table_cells": 0,
@@ -869,10 +933,20 @@ def main():
                 hist["sample_raises_on_empty"] += int(rec["err"] is not None)
             if nontrivial(c, im):
                 distinct.add((c["buf"], c["obs_kind"], c["act_kind"], c["buffer_size"], c["n_envs"], c["memopt"], c["hto"]))
-            if new < 3:
-                new += report(chk, c, orc, mod, im)
-        if new >= 3:
+            if [p_ for p_ in orc if p_[0] != KNOWN_F3]:
+                if n_oracle < 3:
+                    n_oracle += 1
+                    new += report(chk, c, orc, mod, im)          # a concrete failing input: reported at once
+            elif orc:
+                report(chk, c, orc, [], im)                      # F3 only
+                if mod:
+                    model_only.append((c, mod, im))
+            elif mod:
+                model_only.append((c, mod, im))                  # model and implementation disagree, the oracle does not confirm: reported AFTER the concrete inputs
+        if n_oracle >= 3:
             break
+    for c, mod, im in model_only[:max(0, 3 - n_oracle)]:
+        new += report(chk, c, [], mod, im)
     n_roll, roll_passes = rollout_campaign(chk, 300 if chk.tier == "quick" else 3000)
     hist["rollout_op_lists"], hist["rollout_get_passes"] = n_roll, roll_passes
     chk.coverage["evaluations"] = len(cases) + n_roll
